@@ -371,6 +371,33 @@ def v4_credit(F, R):
                 if not (a and c):
                     ok = False
             R.check(ok, 'V4', 'peer-credit-from-header', fn_site(F, b['id']), 'peer_buf_alloc/peer_fwd_cnt copied from the received header', 'peer credit fields are not copied from the event buffer status')
+            # the outstanding-credit-request flag is cleared by exactly the CreditUpdate event
+            et = [n_ for n_ in F.adts if n_.endswith('::VsockEventType')]
+            variants = {v['name']: int(v['discr']) for v in F.adts[et[0]]['variants']} if et else {}
+            cu = variants.get('CreditUpdate')
+            bad = None
+            seen_clear = False
+            for p in paths:
+                clears = [e for e in p.effects if e[0] == 'store' and e[2][2] and e[2][2][-1][0] == 'f' and e[2][2][-1][1] == flds['pending']]
+                sel = None
+                for disc, (kind, vals), _ in p.conds:
+                    if disc[0] == 'discr' and 'event_type' in fmt(disc):
+                        sel = set(vals) if kind == 'in' else set(variants.values()) - set(vals)
+                if clears:
+                    seen_clear = True
+                    v = strip_conv(clears[-1][3])
+                    if not (v[0] == 'const' and v[1] == 0):
+                        bad = 'the flag is set to %s on an incoming event' % fmt(v)
+                    elif sel != {cu}:
+                        names = sorted(k for k, d_ in variants.items() if sel and d_ in sel) if sel else ['every event']
+                        bad = 'the flag is cleared by %s instead of by CreditUpdate only' % names
+                elif sel is not None and cu in sel:
+                    bad = 'a CreditUpdate event does not clear the flag'
+            if cu is None or not seen_clear:
+                bad = bad or 'no path clears the flag (CreditUpdate variant %s)' % cu
+            R.check(bad is None, 'V4', 'credit-request-flag-cleared-by-update', fn_site(F, b['id']),
+                    'has-pending-credit-request is cleared exactly on CreditUpdate', 'pending credit request bookkeeping: %s; a refused send then either repeats the request '
+                    'while one is outstanding or never asks again' % bad)
 
 
 def v5_fwd(F, R):
